@@ -23,7 +23,9 @@
 //	SQL leg   s = export
 //	  (S1) s executes with go-sqlite3 on an EMPTY file (Atlas not involved)
 //	  (S2) sqlm.DBFacts(copy) == sqlm.DBFacts(db)    auto-indexes of UNIQUE constraints are compared by
-//	                                                 content under Atlas's documented name <t>_<cols>
+//	                                                 content under Atlas's documented name <t>_<cols>;
+//	                                                 plus (H4 and S2) the foreign key constraint NAMES
+//	                                                 read from the stored CREATE text by fknames.go
 //	  (S3) SchemaDiff(Inspect(db), Inspect(copy)) == ∅ and (S4) the reverse
 //	  (S5) the indented form `{{ sql . "  " }}` creates a database with the same facts
 //	determinism
@@ -985,6 +987,7 @@ func run(c *rt.Ctx) {
 		"exports = CLI `schema inspect` (HCL, `{{ sql . }}`, indented sql; separate processes) or the in-process equivalents. "+
 		"HCL: EvalHCL(export) vs Inspect(db): SchemaDiff empty both ways, equal graph descriptors, and the evaluated graph applied to an empty file has PRAGMA facts == facts(db). "+
 		"SQL: export executed by go-sqlite3 on an empty file: PRAGMA facts == facts(db) (UNIQUE auto-indexes by content), SchemaDiff of the two databases empty both ways, indented form too. "+
+		"Both legs also compare the foreign key constraint names read from the stored CREATE text by the monitor's own tokenizer. "+
 		"Determinism: two CLI processes / two fresh in-process exports byte-identical. Findings keyed by failure atom + features of the model-level shrunk residual. "+
 		"distinct = distinct (HCL, SQL) export pairs; non-trivial = database has tables and both exports were obtained", extra)
 	n := m.evals.Load()
